@@ -1,6 +1,6 @@
 (* C09 correspondence cases: the two inputs of Mappings::merge together with what the
    implementation answered (the merged set read back in IndexMap iteration order, or Err). *)
-From FB Require Export C09.Model Base.Run.
+From FB Require Export C09.Model C09.ModelNames Base.Run.
 
 Inductive case :=
 | CMerge (A B : mappings) (r : res mappings)      (* Mappings::merge(&A, &B) *)
@@ -8,10 +8,17 @@ Inductive case :=
   (* Mappings::merge(&A, &B) on inputs OUTSIDE wf2 in one respect only: an empty name Some [] in a second
      column, or an empty second namespace name (reachable through Names::change_name / rename_namespaces).
      Keys are still derived from the nodes, so the model applies; compared without the wf2 guard. *)
-| CMergeT (tbl : list str) (A B : mappings) (r : res mappings).
+| CMergeT (tbl : list str) (A B : mappings) (r : res mappings)
   (* the same with a string table: in A, B and r every string is written as the one-element
      list [i] and stands for the i-th entry of tbl (A, B and the result share almost all of
      their strings, and Coq spends its time elaborating literals, not evaluating the model) *)
+(* round 7 - the row / header API of tree/mod.rs (ModelNames.v), each call with the implementation's answer *)
+| CChangeName (l : names) (id : N) (from to : option str) (r : res (option str * names))
+  (* Namespace::<N>::new(id) then Names::change_name on the row l (N = length l): Ok (returned old name, row afterwards) *)
+| CNamesFrom (l : list str) (r : names)                       (* Names::from([T; N]) *)
+| CNamesTry (l : names) (r : res names)                       (* Names::try_from([Option<T>; N]) *)
+| CNamespacesFrom (l : list str) (r : res (list str))         (* Namespaces::try_from([String; N]) *)
+| CChangeNs (ns from to : list str) (r : res (list str)).     (* Mappings::rename_namespaces = Namespaces::change_names: header afterwards *)
 
 Definition rs (tbl : list str) (s : str) : str :=
   match s with [i] => nth (N.to_nat i) tbl [] | _ => s end.
@@ -41,4 +48,10 @@ Definition check (c : case) : bool :=
   | CMergeT tbl A B r =>
       check_pair (rmappings tbl A) (rmappings tbl B)
         (match r with Ok m => Ok (rmappings tbl m) | Err => Err end)
+  | CChangeName l id from to r =>
+      res_eqb (pair_eqb (opt_eqb str_eqb) names_eqb) (change_name_at l (N.to_nat id) from to) r
+  | CNamesFrom l r => names_eqb (names_of_strs l) r
+  | CNamesTry l r => res_eqb names_eqb (names_from l) r
+  | CNamespacesFrom l r => res_eqb (list_eqb str_eqb) (namespaces_from l) r
+  | CChangeNs ns from to r => res_eqb (list_eqb str_eqb) (change_names ns from to) r
   end.
